@@ -29,9 +29,9 @@ class C19(Prop):
     title = 'The yldpc command line equals the library; debug options only add comments'
     technique = 'differential + metamorphic property-based testing (Hypothesis): command line (click runner in-process, real subprocess for a sample) vs. library, all 16 debug-flag combinations enumerated per case'
     rule = ('1-3 sources (random programs whose quoted atoms often contain newlines, carriage returns, other line '
-            'separators, non-ASCII text; some sources malformed at a known line; some refused by the compiler) x ALL 16 '
-            'combinations of -d --debug-parser --debug-generator --debug-filename x output to stdout or -o file x each '
-            'source as a file or as "-" (standard input, UTF-8 bytes). Oracles: with no flags the output equals the '
+            'separators, non-ASCII text; some sources malformed at a known line; some refused by the compiler; some not ending in a line break) x ALL 16 '
+            'combinations of -d --debug-parser --debug-generator --debug-filename x output to stdout or -o file (fresh, or an older longer output file already present) x each '
+            'source as a file or as "-" (standard input, UTF-8 bytes). Oracles: compile_prolog_from_file of each source file equals compile_prolog_from_string of its text; with no flags the output equals the '
             'concatenation of compile_prolog_from_string of each source in order; for every flag combination the output '
             'with lines starting with # removed equals that (comment-stripped) and is parsable Python; exit status 0 iff '
             'every source compiles; for a syntax error the message names the file ("-" for standard input) and the line '
@@ -62,10 +62,14 @@ class C19(Prop):
             elif k == 6:
                 text += "'bad head'(a).\n"
                 mode = 'refused'
+            elif k == 5:
+                # the text does not end in a line break: after a full stop, or inside a % comment
+                text = text.rstrip('\n') + src.pick(['', ' % remark', '\n% end', ' '])
+                mode = 'no-final-newline'
             sources.append({'text': text, 'mode': mode, 'errline': errline, 'stdin': False})
         if src.n(3) == 2:
             sources[src.n(n)]['stdin'] = True
-        return {'sources': sources, 'outfile': src.n(2) == 1, 'subprocess': src.n(12) == 11}
+        return {'sources': sources, 'outfile': src.n(2) == 1, 'subprocess': src.n(12) == 11, 'stale_outfile': src.n(3)}
 
     def case_key(self, case):
         return repr([(s['text'], s['stdin']) for s in case['sources']]) + repr(case['outfile'])
@@ -132,6 +136,15 @@ class C19(Prop):
                 with open(os.path.join(tmp, fn), 'w', encoding='utf8', newline='') as f:
                     f.write(s['text'])
                 args.append(fn)
+                # the file entry point of the library must agree with the string entry point
+                a1, e1 = self.lib(s['text'])
+                try:
+                    a2, e2 = impl.compiler.compile_prolog_from_file(os.path.join(tmp, fn), impl.Ctx), None
+                except Exception as e:      # noqa
+                    a2, e2 = None, e
+                if (a1 is None) != (a2 is None) or (a1 is not None and a1 != a2):
+                    return FAIL('compile_prolog_from_file-differs-from-compile_prolog_from_string',
+                                {'text': s['text'], 'from_string': (a1 or repr(e1))[-400:], 'from_file': (a2 or repr(e2))[-400:]})
             libs.append(self.lib(s['text']))
         all_ok = all(e is None for c, e in libs)
         expected = ''.join(c for c, e in libs if c is not None) if all_ok else None
@@ -146,6 +159,10 @@ class C19(Prop):
                     a += ['-o', 'out.py']
                     if os.path.exists(os.path.join(tmp, 'out.py')):
                         os.remove(os.path.join(tmp, 'out.py'))
+                    if case.get('stale_outfile') and expected is not None:
+                        # an older, longer output file is already there: it must be replaced, not kept
+                        with open(os.path.join(tmp, 'out.py'), 'w', encoding='utf8', newline='') as f:
+                            f.write(expected + ('def stale_1(arg1):\n  yield False\n' if case['stale_outfile'] == 1 else '# older\n'))
                 a += args
                 rc, out, err = self.invoke(a, stdin_bytes, use_sub, tmp)
                 d = dict(detail, flags=flags, via='subprocess' if use_sub else 'click runner', exit_status=rc, stderr=err[-600:])
